@@ -547,10 +547,10 @@ Definition artifact_resolve (entityid : string) (artifact : string) (destination
   | None => None
   end.
 
-(* ------------------------------------------------------------------ create_name_id_mapping_response (as coded) *)
-(* NameIDMappingResponse(name_id, encrypted_id, in_response_to=..., **message_args()): the status
-   argument is never used, no Status member is set *)
-Definition name_id_mapping_response (entityid : string) (name_id : option tree) (irt : option string)
+(* ------------------------------------------------------------------ create_name_id_mapping_response *)
+(* the pinned snapshot (before fix 04928d2a): NameIDMappingResponse(name_id, encrypted_id, in_response_to=...,
+   **message_args()): the status argument is never used, no Status member is set *)
+Definition name_id_mapping_response_v0 (entityid : string) (name_id : option tree) (irt : option string)
            (sg : signing) (ob : observed) : option obj :=
   match sig_member sg ob with
   | Some s =>
@@ -563,8 +563,8 @@ Definition name_id_mapping_response (entityid : string) (name_id : option tree) 
   | None => None
   end.
 
-(* the same after proposed_fixes/C13-1.diff: status defaults to success_status_factory() and is passed on *)
-Definition name_id_mapping_response_fixed (entityid : string) (name_id : option tree) (irt : option string)
+(* as coded now (fix 04928d2a): status defaults to success_status_factory() and is passed on, members by name *)
+Definition name_id_mapping_response (entityid : string) (name_id : option tree) (irt : option string)
            (status : statusv) (sg : signing) (ob : observed) : option obj :=
   match sig_member sg ob with
   | Some s =>
@@ -663,16 +663,9 @@ Definition model_obj (b : binfo) : option (option obj) :=
   | BAttributeQuery a => Some (attribute_query a)
   | BArtifactResolve e ar d c x s o => Some (artifact_resolve e ar d c x s o)
   | BEntityDescriptor a => Some (Some (entity_descriptor a))
-  | BNameIDMappingResponse e n i _ s o => Some (name_id_mapping_response e n i s o)
+  | BNameIDMappingResponse e n i st s o => Some (name_id_mapping_response e n i st s o)
   end.
 
-(* the repaired variant of a builder whose defect is a recorded finding: accepted as well, so that the
-   check stays meaningful once the fix lands *)
-Definition model_obj_fixed (b : binfo) : option obj :=
-  match b with
-  | BNameIDMappingResponse e n i st s o => name_id_mapping_response_fixed e n i st s o
-  | _ => None
-  end.
 
 Definition model_tree (b : binfo) : option (option tree) :=
   match model_obj b with
